@@ -1,15 +1,64 @@
-"""C05  No whitespace is ever injected into inline content."""
+"""C05  No whitespace is ever injected into inline content.
+
+ENTRY POINTS AND ARGUMENTS THAT CAN REACH THE BEHAVIOUR (layout whitespace in emitted markup); every
+one of them is driven below, with non-default argument values, and judged with the property's oracle
+(flat form of every inline run appears contiguously; whitespace only at the edges of whitespace-enabled
+tags):
+
+  construction   Tag(name, *children, _add_ws=...), the tags.* / svg.* catalogue functions and the top-level
+                 re-exports (htmltools.div, span, ...) with and without an explicit _add_ws (per-element
+                 default), children given at construction / append / extend / insert / children += /
+                 nested lists, tuples and TagLists (flattened) / inside a with-block (sys.displayhook),
+                 attribute dicts incl. another tag's .attrs object and the result of consolidate_attrs
+  rendering      Tag.get_html_string(indent, eol); TagList.get_html_string(indent, eol, add_ws=);
+                 tagify().get_html_string(); render()['html']; str(); repr(); _repr_html_();
+                 str() with htmltools.html_dependency_render_mode = 'json'
+  documents      HTMLDocument(*content, **html_attrs): render(lib_prefix=, include_version=), append(),
+                 save_html(file, libdir=, include_version=), copy.copy(document);
+                 Tag.save_html / TagList.save_html (file, libdir=, include_version=)  [show() is the same
+                 save_html followed by opening a browser / IPython display: not driven];
+                 content shapes the document code distinguishes: a lone <html>, a lone <body>, another
+                 lone tag, several items; <html> with / without its own <head>; dependencies and
+                 head_content() inside
+                 HTMLTextDocument(text, deps, deps_replace_pattern).render(lib_prefix=, include_version=)
+                 on the text of a rendering (also of a json-mode rendering, whose serialised dependencies
+                 it extracts again)
+  placement      child of a whitespace-enabled / inline parent, item of a TagList built by the constructor,
+                 + / reflected + / += / append / insert / extend; next to text / number / inline tag /
+                 HTML() / self-rendering / block siblings; next to a JSX component; next to an object that
+                 is both tagifiable and self-rendering; one object in two parents
+  other          copy.copy / copy.deepcopy / tagify() of the subject (the copy is then modified: the subject
+                 must be unaffected), ==, a tag that was used as a context manager
+"""
 from __future__ import annotations
 
+import copy
+import os
 import re
+import shutil
+import sys
+import tempfile
 
 from ..common import Ctx, S, unS, differential, run_model
 from .. import trees
 from ..trees import build, to_sx, safe_call, res_decode
 
-from htmltools import TagList
+import htmltools
+from htmltools import HTML, HTMLDependency, HTMLDocument, HTMLTextDocument, Tag, TagList
 
 EOLS = ["\n", "\r\n", "", " ", "\n\n"]
+ODD_EOLS = ["\t", "\r", "<!-- -->\n", "\n" * 20, " ", "\n\t", "eol", "\n" * 300]
+BIG_INDENTS = [7, 8, 9, 15, 16, 17, 31, 33, 64, 65, 130, 257, 300]
+SIZES = [7, 8, 9, 15, 16, 17, 31, 32, 33, 63, 64, 65, 127, 128, 129, 255, 256, 257, 300]
+DEPTHS = [7, 8, 9, 15, 16, 17, 31, 32, 33, 63, 64, 65, 70]
+
+
+def rand_layout(rng):
+    """(indent, eol): mostly small / usual, sometimes large or odd"""
+    r = rng.random()
+    indent = rng.choice(BIG_INDENTS) if r < 0.01 else rng.randrange(0, 5)
+    eol = rng.choice(ODD_EOLS) if 0.01 <= r < 0.03 else rng.choice(EOLS)
+    return indent, eol
 
 
 def inline_only(d):
@@ -40,6 +89,64 @@ def runs_of(d, out):
         out.append((esc, cur))
 
 
+def tree_runs(d):
+    """the runs of a tree wherever it is placed; the tree itself when it is inline-only"""
+    rs = []
+    runs_of(d, rs)
+    if inline_only(d):
+        rs.append((True, [d]))
+    return rs
+
+
+def doc_runs(d):
+    """the runs that must survive when the tree is the ONLY content of an HTMLDocument.  A lone <html>
+    tag is used as the document's <html>: the document adds attributes to (a copy of) it and puts
+    <meta charset> and the dependencies into (a copy of) its first <head> child, or inserts a <head>
+    in front of its children -- so the <html> element itself and that <head> element are not
+    rendered as given, but their other children, and the <head>'s own children, still sit side by
+    side.  Every other tree (a lone <body> included) appears in the document as given."""
+    if d[0] == "G" and d[1] == "html":
+        kids = d[4]
+        hi = next((i for i, k in enumerate(kids) if k[0] == "G" and k[1] == "head"), None)
+        out = []
+        if hi is None:
+            runs_of(d, out)
+            return out
+        runs_of(("G", "html", d[2], [], kids[:hi]), out)
+        runs_of(("G", "html", d[2], [], kids[hi + 1:]), out)
+        head = kids[hi]
+        runs_of(("G", "head", True, [], head[4]), out)
+        return out
+    return tree_runs(d)
+
+
+def spec_flats(runlists):
+    """[(escape flag, [items])] per case -> the flat form of each run, from the extracted
+    specification (Spec flat: open tags, content, close tags, nothing else)"""
+    reqs = [[5, to_sx(it), 1 if esc else 0] for rl in runlists for esc, items in rl for it in items]
+    flats = run_model(reqs) if reqs else []
+    pos, out = 0, []
+    for rl in runlists:
+        acc = []
+        for esc, items in rl:
+            s = ""
+            for it in items:
+                m = flats[pos]
+                pos += 1
+                assert m[0] == 1, f"the specification does not call this item inline-only: {it!r}"[:1500]
+                s += unS(m[1])
+            acc.append(s)
+        out.append(acc)
+    return out
+
+
+def missing_run(runs, text, where=""):
+    for s in runs:
+        if s not in text:
+            return f"inline run {s[:200]!r} ({len(s)} characters) does not appear contiguously in the output{where}"
+    return None
+
+
 # ---- whitespace-at-block-edges oracle: trees whose tag names tell the flag ------------
 SENT = "\x01"
 
@@ -58,20 +165,46 @@ def edge_tree(rng, depth, counter):
     kids = []
     if depth > 0:
         for _ in range(rng.choice([0, 1, 2, 2, 3, 4])):
-            r = rng.random()
-            if r < 0.55:
-                kids.append(edge_tree(rng, depth - 1, counter))
-            elif r < 0.75:
-                kids.append(("T", rng.choice(["x", "a b", "<", "y z"])))
-            elif r < 0.85:
-                kids.append(("H", rng.choice(["<u>h</u>", "h"])))
-            elif r < 0.91:
-                kids.append(("R", "<em>r</em>"))
-            elif r < 0.95:
-                kids.append(("F",))          # a self-rendering object whose _repr_html_() raises
-            else:
-                kids.append(("M", None))
+            kids.append(edge_child(rng, depth, counter))
     return ("G", name, ws, [], kids)
+
+
+def edge_child(rng, depth, counter):
+    r = rng.random()
+    if r < 0.55:
+        return edge_tree(rng, depth - 1, counter)
+    if r < 0.75:
+        return ("T", rng.choice(["x", "a b", "<", "y z"]))
+    if r < 0.85:
+        return ("H", rng.choice(["<u>h</u>", "h"]))
+    if r < 0.91:
+        return ("R", "<em>r</em>")
+    if r < 0.95:
+        return ("F",)          # a self-rendering object whose _repr_html_() raises
+    return ("M", None)
+
+
+def edge_doc_tree(rng, counter):
+    """an edge tree shaped like a document: <html> / <body> / <head> with either flag, in the
+    combinations the document code tells apart"""
+    def kids(n):
+        return [edge_child(rng, rng.choice([1, 2]), counter) for _ in range(n)]
+    flag = lambda: rng.random() < 0.5
+    shape = rng.choice(["body", "body", "html", "html+head", "html+head+body", "head"])
+    if shape == "body":
+        return ("G", "body", flag(), [], kids(rng.choice([0, 1, 2, 3])))
+    if shape == "head":
+        return ("G", "head", flag(), [], kids(rng.choice([0, 1, 2])))
+    ks = []
+    if "head" in shape:
+        ks.append(("G", "head", flag(), [], kids(rng.choice([0, 0, 1, 2]))))
+        if rng.random() < 0.3:
+            ks.insert(0, edge_child(rng, 1, counter))
+    if shape != "html+head" or rng.random() < 0.5:
+        ks.append(("G", "body", flag(), [], kids(rng.choice([0, 1, 2, 3]))))
+    if rng.random() < 0.3:
+        ks.append(edge_child(rng, 1, counter))
+    return ("G", "html", flag(), [], ks)
 
 
 # layout whitespace = the sentinel eol followed by indentation, OR a bare run of two or more
@@ -81,7 +214,6 @@ TOK = re.compile(r"(\x01 *| {2,})|(</?[a-z0-9]+/?>)|((?:[^< \x01]| (?! ))+|<)")
 
 def build_edge(d):
     from ..faults import FaultyRepr
-    from htmltools import Tag
     if d[0] == "F":
         return FaultyRepr()
     if d[0] == "G":
@@ -112,55 +244,828 @@ def edges_ok(out: str) -> str | None:
     return None
 
 
+# the same oracle for output in which tags carry attributes and in which tags the library itself
+# creates (document skeleton, dependency tags) occur: a tag whose flag the case does not fix counts
+# as whitespace-enabled (lenient); whitespace before the first token is the caller's indent
+TOKG = re.compile(r"(\x01 *| {2,})|<(/?)([A-Za-z!][A-Za-z0-9:_-]*)(?:[ \x01][^<>]*)?/?>|((?:[^< \x01]| (?! ))+|<)")
+EDGE_FIXED = {"br": False, "hr": True, "u": False, "em": False}
+
+
+def edge_flags(d, acc=None):
+    """name -> flag of the tags of a description (None when one name carries both flags)"""
+    acc = {} if acc is None else acc
+    if d[0] == "G":
+        acc[d[1]] = d[2] if acc.get(d[1], d[2]) == d[2] else None
+        for k in d[4]:
+            edge_flags(k, acc)
+    return acc
+
+
+def edges_ok_general(out: str, flags: dict) -> str | None:
+    toks = []
+    for m in TOKG.finditer(out.replace("\n", SENT)):
+        if m.group(1) is not None:
+            toks.append(("ws", m.group(0)))
+        elif m.group(3) is not None:
+            name = m.group(3)
+            f = flags.get(name, EDGE_FIXED.get(name))
+            toks.append(("tag", m.group(0), True if f is None else f))
+        else:
+            toks.append(("txt", m.group(0)))
+    for idx, t in enumerate(toks):
+        if t[0] != "ws":
+            continue
+        j = idx - 1
+        while j >= 0 and toks[j][0] == "ws":
+            j -= 1
+        k = idx + 1
+        while k < len(toks) and toks[k][0] == "ws":
+            k += 1
+        if j < 0:
+            continue
+        before = toks[j]
+        after = toks[k] if k < len(toks) else None
+        if not ((before[0] == "tag" and before[2]) or (after and after[0] == "tag" and after[2])):
+            return (f"layout whitespace between {before[1]!r} and {(after[1] if after else None)!r}, "
+                    "neither a whitespace-enabled tag")
+    return None
+
+
 def build_list(items):
     memo: dict = {}
     return TagList(*[build(d, True, memo) for d in items])
 
 
+# ---- sizes and depths: a handful of big cases per run, the interesting content in the tail ----------
+def small_inline(rng, i):
+    r = rng.random()
+    if r < 0.3:
+        return ("T", rng.choice(["t%d" % i, "a b", "x<y", " ", "\n  ", "0", ""]))
+    if r < 0.45:
+        return ("H", "<i>h%d</i>" % i)
+    if r < 0.55:
+        return ("R", "<u>r%d</u>" % i)
+    if r < 0.62:
+        return ("M", None)
+    n = rng.choice(trees.INLINE_NAMES)
+    return ("G", n, False, [], [] if r < 0.8 else [("T", "k%d" % i), ("G", "b", False, [], [("T", "q")])])
+
+
+def long_text(rng, n):
+    """>= n characters; layout look-alikes (line feeds followed by spaces) in the tail"""
+    bits = trees.LONG_BITS + ["\n    ", "  ", "\r\n\t"]
+    s = ""
+    while len(s) < n:
+        s += rng.choice(bits) * (1 + n // 2000)
+    return s + "\n  <tail & end>\n" + str(rng.randrange(1000))
+
+
+def big_cases(rng, quick: bool):
+    """the systematic part: every size / depth on the list once per run (thorough: three times)"""
+    out = []
+    for _ in range(1 if quick else 3):
+        for n in SIZES:
+            out.append(big_tree(rng, "wide-block", n))
+            out.append(big_tree(rng, "wide-inline", n))
+        for n in DEPTHS:
+            out.append(big_tree(rng, "deep-inline", n))
+            out.append(big_tree(rng, "deep-block", n))
+        for n in [9, 33, 65, 129, 257, 300]:
+            out.append(big_tree(rng, "attrs", n))
+        for n in [300, 5000, 70000]:
+            out.append(big_tree(rng, "long-text", n))
+        for n in BIG_INDENTS:
+            out.append(big_tree(rng, "indent", n))
+        out.append(big_tree(rng, "wide-deep", rng.choice(DEPTHS)))
+    return out
+
+
+def big_tree(rng, kind=None, n=None):
+    """(tree, indent, eol): one large tree"""
+    kind = kind or rng.choice(["wide-block", "wide-block", "wide-inline", "deep-inline", "deep-block", "long-text",
+                               "attrs", "indent", "wide-deep"])
+    indent, eol = rng.randrange(0, 3), rng.choice(EOLS)
+    if kind in ("wide-block", "wide-inline"):
+        n = n or rng.choice(SIZES)
+        kids = [small_inline(rng, i) for i in range(n)]
+        # a whitespace-enabled child early on: the long run (and its end) lies beyond it
+        kids[rng.randrange(0, min(n, 6))] = ("G", "div", True, [], [("T", "blk")])
+        kids[-1] = ("G", "span", False, [], [("G", "b", False, [], [("T", "last")]), ("T", "&"), ("R", "<u>end</u>")])
+        if kind == "wide-block":
+            return ("G", rng.choice(["div", "p", "ul"]), True, [], kids), indent, eol
+        return ("G", rng.choice(["span", "a", "em"]), False, [], kids), indent, eol
+    if kind in ("deep-inline", "deep-block", "wide-deep"):
+        depth = n or rng.choice(DEPTHS)
+        t = ("G", "span", False, [], [("G", "b", False, [], [("T", "deep")]), ("T", "est"), ("R", "<u>r</u>"),
+                                      ("G", "i", False, [], [])])
+        if kind == "wide-deep":
+            t = ("G", "span", False, [], [small_inline(rng, i) for i in range(rng.choice([9, 17, 33]))] + [t])
+        for lvl in range(depth):
+            if kind == "deep-block" and lvl >= depth // 2:
+                t = ("G", rng.choice(["div", "section", "li"]), True, [], [t] if lvl % 3 else [("T", "b%d" % lvl), t])
+            else:
+                t = ("G", rng.choice(trees.INLINE_NAMES), False, [],
+                     [t] if lvl % 4 else [("T", "l%d" % lvl), t, ("H", "<i>/</i>")])
+        return ("G", "div", True, [], [("T", "lead"), t, ("T", "trail")]), indent, eol
+    if kind == "long-text":
+        n = n or rng.choice([300, 5000, 5000, 70000])
+        s = long_text(rng, n)
+        leaf = rng.choice("THR")
+        return ("G", "div", True, [], [("G", "p", True, [], [("T", "blk")]),
+                                       ("G", "span", False, [], [("T", "pre")]), (leaf, s),
+                                       # every kind of inline item AFTER the long one
+                                       ("G", "b", False, [], [("T", "after the long one")]), ("T", s[-40:]),
+                                       ("R", "<u>r-after</u>"), ("H", "<i>h-after</i>"), ("M", None), ("T", "0"),
+                                       ("G", "code", False, [], [(leaf, s[:n // 3]), ("G", "i", False, [], []), ("R", "<u>r</u>"),
+                                                                 ("T", "t"), ("H", "h")]),
+                                       ("G", "br", False, [], []), ("R", "<u>last</u>")]), indent, eol
+    if kind == "attrs":
+        n = n or rng.choice(SIZES)
+        attrs = [("data-a%d" % i, ("S", "v%d" % i)) for i in range(n)]
+        attrs.append(("class", ("S", " ".join("c%d" % i for i in range(n)))))
+        return ("G", "div", True, [], [("T", "x"), ("G", "span", False, attrs, [("T", "k"), ("G", "b", False, attrs[-3:], [])]),
+                                       ("T", "y"), ("G", "a", False, [("title", ("H", "t" * n))], [])]), indent, eol
+    # large indent / long eol
+    t = trees.rand_tree(rng, 3, leaves="TTHRM", names="bbiiiv", flip_ws=0.2)
+    return t, n or rng.choice(BIG_INDENTS), rng.choice(ODD_EOLS + EOLS)
+
+
+# ---- construction through the public API (the route is a function of the description and `mode`) ----
+_CATF: dict = {}
+
+
+def catalogue_fn(name):
+    """the tags.* / svg.* / top-level function creating elements called `name`, with its default flag"""
+    if name not in _CATF:
+        f = None
+        for mod in (htmltools, htmltools.tags, htmltools.svg):
+            g = getattr(mod, name, None)
+            if callable(g) and not isinstance(g, type):
+                try:
+                    t = g()
+                    if isinstance(t, Tag) and t.name == name:
+                        f = (g, t.add_ws)
+                        break
+                except Exception:
+                    pass
+        _CATF[name] = f
+    return _CATF[name]
+
+
+def nest(objs, depth, h):
+    """the children inside `depth` levels of lists / tuples / TagLists (all flattened by the library)"""
+    x = list(objs)
+    for lvl in range(depth):
+        k = (h + lvl) % 3
+        x = [x] if k == 0 else (x,) if k == 1 else [TagList(*x)] if lvl % 2 else [None, x, []]
+    return x
+
+
+class _Collector:
+    """stands in for sys.displayhook while a with-block is used"""
+
+    def __init__(self):
+        self.got = []
+
+    def __call__(self, value):
+        self.got.append(value)
+
+
+def with_block(parent, objs):
+    old = sys.displayhook
+    sys.displayhook = _Collector()
+    try:
+        with parent:
+            for o in objs:
+                sys.displayhook(o)
+    finally:
+        sys.displayhook = old
+    return parent
+
+
+def api_desc(d, mode):
+    """the tree the construction route of build_api is documented to give: the same, except that a
+    self-rendering object displayed inside a with-block is stored as HTML(its markup)"""
+    if d[0] != "G":
+        return d
+    kids = [api_desc(k, mode) for k in d[4]]
+    if (trees._pick(repr(d)[:300]) + mode) % 8 == 6:
+        kids = kids[:1] + [("H", k[1]) if k[0] == "R" else k for k in kids[1:]]
+    return ("G", d[1], d[2], d[3], kids)
+
+
+def build_api(d, mode):
+    if d[0] == "F":
+        from ..faults import FaultyRepr
+        return FaultyRepr()
+    if d[0] != "G":
+        return build(d)
+    _, name, ws, attrs, kids = d
+    h = trees._pick(repr(d)[:300]) + mode
+    kobjs = [trees.mk_child_text(x[1]) if x[0] == "T" else build_api(x, mode) for x in kids]
+    cf = catalogue_fn(name)
+    ad = {}
+    for key, (m, v) in attrs:
+        ad[key] = trees.mk_html(v) if m == "H" else trees.mk_text(v)
+    donor = Tag("donor")
+    for key, v in ad.items():
+        dict.__setitem__(donor.attrs, key, v)
+
+    def make(*a):
+        if cf is not None and h % 3 != 0:
+            if cf[1] == ws and h % 2 == 0:
+                return cf[0](*a)               # the element's documented default flag
+            return cf[0](*a, _add_ws=ws)
+        return Tag(name, *a, _add_ws=ws)
+    route = h % 8
+    if route == 0:
+        t = make(*kobjs)
+    elif route == 1:
+        t = make()
+        if kobjs:
+            t.append(*kobjs)
+    elif route == 2:
+        t = make()
+        t.extend(kobjs)
+    elif route == 3:
+        t = make()
+        for i, k in enumerate(reversed(kobjs)):
+            t.insert(0, k)
+    elif route == 4:
+        t = make()
+        t.children += kobjs
+    elif route == 5:
+        t = make(*nest(kobjs, [1, 2, 3, 8, 17, 33, 70][h % 7], h))
+    elif route == 6:
+        t = make(*kobjs[:1])
+        with_block(t, kobjs[1:])
+    else:
+        t = make()
+        for k in kobjs:
+            t.children.append(k)
+    # attributes: stored as is (names / values are the subject of other properties), directly or by
+    # handing over another tag's .attrs object
+    if ad and h % 5 == 0:
+        t2 = Tag(t.name, donor.attrs, _add_ws=t.add_ws)
+        if list(t2.attrs.items()) == list(donor.attrs.items()):
+            t.attrs = t2.attrs
+            return t
+    for key, v in ad.items():
+        dict.__setitem__(t.attrs, key, v)
+    return t
+
+
+# ---- placements: every way a subject tree can be put somewhere and rendered --------------------------
+# siblings whose flat form is plain: (kind, flat form, inline?)
+SIBS = [("text", "pre", True), ("text2", "po st", True), ("num", "0", True), ("negzero", "-0.0", True),
+        ("b", "<b>s</b>", True), ("html", "<i>h</i>", True), ("repr", "<u>r</u>", True),
+        ("span-nest", "<span><b>n</b>m</span>", True), ("block", None, False), ("hr", None, False)]
+
+
+def mk_sib(kind):
+    if kind == "text":
+        return "pre"
+    if kind == "text2":
+        return "po st"
+    if kind == "num":
+        return 0
+    if kind == "negzero":
+        return -0.0
+    if kind == "b":
+        return Tag("b", "s", _add_ws=False)
+    if kind == "html":
+        return HTML("<i>h</i>")
+    if kind == "repr":
+        return trees.ReprObj("<u>r</u>")
+    if kind == "span-nest":
+        return htmltools.span(htmltools.tags.b("n"), "m")
+    if kind == "block":
+        return Tag("section", "blk")
+    return Tag("hr")
+
+
+SIB_FLAT = {k: f for k, f, _ in SIBS}
+WRAP_FLAGS = {"section": True, "span": False, "b": False, "i": False, "div": True, "a": False, "hr": True, "li": True}
+PATTERNS = ["<!-- deps -->", "(deps.*)+[x]\\1$^", "{{ head | safe }}", "\\g<0>&deps;"]
+
+
+def rand_ops(rng, edge: bool, is_tag_named: str, history: int = 0):
+    def sib():
+        return rng.choice(SIBS)[0]
+
+    def layout():
+        if edge:
+            return rng.randrange(0, 4), SENT
+        return rand_layout(rng)
+
+    def one(cheap=False):
+        menu = ["ghs", "route", "child", "child", "list", "list"]
+        if not cheap:
+            menu += ["two-parents", "copy", "eq", "doc", "doc", "doc", "doc", "with", "attrs-wrap", "tagifiable-sib"]
+            if not edge:
+                menu += ["textdoc", "jsx-sib"]
+        k = rng.choice(menu)
+        if k == "ghs":
+            return ("ghs",) + ((0, SENT) if edge else layout())
+        if k == "route":
+            return ("route", rng.randrange(0, 7))
+        if k == "child":
+            return ("child", rng.choice(["section", "span", "div", "a", "li"]), sib(), sib(),
+                    rng.choice(["ctor", "append", "extend", "insert", "iadd", "nested"]),
+                    rng.choice(["ghs", "ghs", "str", "render", "_repr_html_", "json", "tagify"])) + layout()
+        if k == "list":
+            return ("list", rng.random() < 0.5, sib(), sib(),
+                    rng.choice(["ctor", "add", "radd", "iadd", "append", "insert", "extend"])) + layout()
+        if k == "two-parents":
+            return ("two-parents", sib())
+        if k == "copy":
+            return ("copy", rng.choice(["copy", "deepcopy", "tagify"]))
+        if k == "eq":
+            return ("eq",)
+        if k == "doc":
+            shape = rng.choice(["alone", "alone", "alone", "sibs", "append", "in-body", "in-html", "head_content",
+                                "dep-head"])
+            return ("doc", shape, sib(), sib(), rng.choice(["none", "lang", "class-style", "many"]),
+                    rng.choice(["render", "render", "copy-render", "save", "tag-save", "taglist-save", "render-twice"]),
+                    rng.choice(["lib", None, "a/b", ""]), rng.random() < 0.5, rng.random() < 0.5, rng.random() < 0.5)
+        if k == "with":
+            return ("with", rng.choice(["section", "span"]), sib(), sib())
+        if k == "attrs-wrap":
+            return ("attrs-wrap", sib(), sib())
+        if k == "tagifiable-sib":
+            return ("tagifiable-sib", sib(), rng.choice(["ghs", "render", "str"]))
+        if k == "textdoc":
+            return ("textdoc", rng.random() < 0.5, rng.randrange(0, len(PATTERNS)), rng.choice(["lib", None, "x"]),
+                    rng.random() < 0.5)
+        return ("jsx-sib", sib(), sib(), rng.choice(["render", "str"]))
+    if history:
+        # a long history of operations on one object: cheap ones, a document now and then
+        return tuple(one(cheap=(i % 16 != 7)) for i in range(history))
+    ops = [one() for _ in range(rng.choice([1, 2, 2, 3, 4, 6]))]
+    if is_tag_named in ("html", "body", "head"):
+        # document-shaped subjects go through a document first, then through everything else
+        ops.insert(0, ("doc", "alone", "text", "text", rng.choice(["none", "lang", "class-style"]),
+                       rng.choice(["render", "save", "tag-save", "copy-render"]), rng.choice(["lib", None]),
+                       rng.random() < 0.5, rng.random() < 0.25, rng.random() < 0.25))
+        ops.append(("child", "section", sib(), sib(), "ctor", "ghs") + layout())
+    return tuple(ops)
+
+
+def read_file(path):
+    with open(path, newline="") as f:
+        return f.read()
+
+
+def adj(flat_whole, pre, post):
+    """what must appear contiguously when an inline-only subject sits between the given siblings"""
+    if flat_whole is None:
+        return []
+    a = SIB_FLAT[pre] if pre else ""
+    b = SIB_FLAT[post] if post else ""
+    return [(a or "") + flat_whole + (b or "")]
+
+
+def run_op(op, x, flat_whole, tmp):
+    """-> [(label, ('ok', text) | ('err', ..), what must be in it: 'runs' | 'doc', extra strings)]"""
+    kind = op[0]
+    if kind == "ghs":
+        return [(f"get_html_string({op[1]}, {op[2]!r})", safe_call(lambda: x.get_html_string(op[1], op[2])), "runs", [])]
+    if kind == "route":
+        n, f = trees.render_routes(x)[op[1]]
+        return [(n, safe_call(f), "runs", [])]
+    if kind == "child":
+        _, pname, pre, post, how, route, indent, eol = op
+        pws = WRAP_FLAGS[pname]
+        kids = [mk_sib(pre), x, mk_sib(post)]
+
+        def mk():
+            if how == "ctor":
+                return Tag(pname, *kids, _add_ws=pws)
+            p = Tag(pname, _add_ws=pws)
+            if how == "append":
+                p.append(*kids)
+            elif how == "extend":
+                p.extend(kids)
+            elif how == "insert":
+                p.insert(0, kids[2])
+                p.insert(0, kids[0])
+                p.insert(1, kids[1])
+            elif how == "iadd":
+                p.children += kids
+            else:
+                p.append([kids[0], (kids[1], [TagList(kids[2])])])
+            return p
+
+        def go():
+            p = mk()
+            if route == "ghs":
+                return p.get_html_string(indent, eol)
+            if route == "str":
+                return str(p)
+            if route == "render":
+                return p.render()["html"]
+            if route == "_repr_html_":
+                return p._repr_html_()
+            if route == "json":
+                return trees._str_json_mode(p)
+            return p.tagify().get_html_string(indent, eol)
+        return [(f"child of <{pname}> between {pre} and {post} ({how}; {route})", safe_call(go), "runs",
+                 adj(flat_whole, pre, post))]
+    if kind == "list":
+        _, aw, pre, post, how, indent, eol = op
+        a, b = mk_sib(pre), mk_sib(post)
+
+        def go():
+            if how == "ctor":
+                l = TagList(a, x, b)
+            elif how == "add":
+                l = TagList(a) + [x, b]
+            elif how == "radd":
+                l = [a, x] + TagList(b)
+            elif how == "iadd":
+                l = TagList(a)
+                l += (x, b)
+            elif how == "append":
+                l = TagList()
+                l.append(a, x, b)
+            elif how == "insert":
+                l = TagList(b)
+                l.insert(0, x)
+                l.insert(0, a)
+            else:
+                l = TagList()
+                l.extend([a, [x, (b,)]])
+            return l.get_html_string(indent, eol, add_ws=aw)
+        return [(f"item of a TagList between {pre} and {post} ({how}; add_ws={aw})", safe_call(go), "runs",
+                 adj(flat_whole, pre, post))]
+    if kind == "two-parents":
+        s = op[1]
+        p1 = Tag("section", mk_sib(s), x)
+        p2 = Tag("span", x, mk_sib(s), _add_ws=False)
+        return [("first of two parents", safe_call(lambda: p1.get_html_string(1, SENT)), "runs", adj(flat_whole, s, None)),
+                ("second of two parents", safe_call(lambda: p2.get_html_string(0, SENT)), "runs", adj(flat_whole, None, s)),
+                ("first of two parents, again", safe_call(lambda: str(p1)), "runs", adj(flat_whole, s, None))]
+    if kind == "copy":
+        def go():
+            if op[1] == "copy":
+                cp = copy.copy(x)
+            elif op[1] == "deepcopy":
+                cp = copy.deepcopy(x)
+            else:
+                cp = x.tagify()
+            out = cp.get_html_string(0, SENT)
+            # the copy is the caller's: changing it must not reach the subject
+            if op[1] == "copy":
+                cp.add_ws = not cp.add_ws
+                cp.children.append(Tag("section", "added"))
+                cp.attrs["data-copy"] = "1"
+            else:
+                todo = [cp]
+                while todo:
+                    t = todo.pop()
+                    t.add_ws = not t.add_ws
+                    todo.extend(c for c in t.children if isinstance(c, Tag))
+            return out
+        return [(f"{op[1]} of the subject", safe_call(go), "runs", [])]
+    if kind == "eq":
+        safe_call(lambda: x == copy.deepcopy(x))
+        safe_call(lambda: x == x.tagify())
+        safe_call(lambda: x != Tag(x.name))
+        return []
+    if kind == "doc":
+        _, shape, pre, post, kw, entry, libp, incv, bws, hws = op
+        kwargs = {"none": {}, "lang": {"lang": "en"}, "class-style": {"class_": "c d", "style": "margin:0"},
+                  "many": {"lang": "en", "data_x": HTML("&amp;'x'"), "id": "doc", "class_": "k"}}[kw]
+        a, b = mk_sib(pre), mk_sib(post)
+        want, extras = "runs", []
+        if shape == "alone":
+            content, want = [TagList(x) if hws else [[x], None] if bws else x], "doc"
+        elif shape == "sibs":
+            content, extras = [a, x, b], adj(flat_whole, pre, post)
+        elif shape == "append":
+            content, extras = [a], adj(flat_whole, pre, post)
+        elif shape == "in-body":
+            content, extras = [Tag("body", a, x, b, _add_ws=bws)], adj(flat_whole, pre, post)
+        elif shape == "in-html":
+            content = [Tag("html", Tag("head", Tag("title", "t")), Tag("body", a, x, b, _add_ws=bws), _add_ws=hws)]
+            extras = adj(flat_whole, pre, post)
+        elif shape == "head_content":
+            content = [Tag("html", Tag("head", _add_ws=hws), Tag("body", htmltools.head_content(a, x, b), "y", _add_ws=bws))]
+            extras = adj(flat_whole, pre, post)
+        else:
+            content = [Tag("div", HTMLDependency("c05-dep", "1.0", head=TagList(a, x, b)), "y")]
+            extras = adj(flat_whole, pre, post)
+        sub = tempfile.mkdtemp(dir=tmp)
+        path = os.path.join(sub, "index.html")
+
+        def go():
+            if entry == "tag-save" and shape == "alone":
+                x.save_html(path, libdir=libp, include_version=incv)
+                return read_file(path)
+            if entry == "taglist-save":
+                TagList(*(content + ([x, b] if shape == "append" else []))).save_html(
+                    path, libdir=libp, include_version=incv)
+                return read_file(path)
+            doc = HTMLDocument(*content, **kwargs)
+            if shape == "append":
+                doc.append(x, b)
+            if entry == "copy-render":
+                return copy.copy(doc).render(lib_prefix=libp, include_version=incv)["html"]
+            if entry == "save":
+                doc.save_html(path, libdir=libp, include_version=incv)
+                return read_file(path)
+            if entry == "render-twice":
+                doc.render()
+            return doc.render(lib_prefix=libp, include_version=incv)["html"]
+        r = safe_call(go)
+        shutil.rmtree(sub, ignore_errors=True)
+        return [(f"HTMLDocument ({shape}; {kw}; {entry}; lib_prefix={libp!r}, include_version={incv})", r, want, extras)]
+    if kind == "with":
+        _, pname, pre, post = op
+        return [(f"child of <{pname}> added inside a with-block",
+                 safe_call(lambda: with_block(Tag(pname, _add_ws=WRAP_FLAGS[pname]), [mk_sib(pre), x, mk_sib(post)])
+                           .get_html_string(1, SENT)), "runs", adj(flat_whole, pre, post))]
+    if kind == "attrs-wrap":
+        _, pre, post = op
+
+        def go():
+            donor = Tag("a", {"class": HTML("a&amp;b")}, href="#", class_="c")
+            attrs, kids = htmltools.consolidate_attrs(donor.attrs, {"style": HTML("x:'y'")}, mk_sib(pre), x, mk_sib(post),
+                                                      class_="d", style=htmltools.css(color="red"))
+            w = Tag("span", attrs, *kids, _add_ws=False)
+            w.add_class("e", prepend=True).add_style(HTML("y:'z';"), prepend=True).add_class(HTML("f&amp;g"))
+            w.remove_class("c")
+            return w.get_html_string(2, SENT)
+        return [("child of a tag built from consolidate_attrs() and another tag's .attrs", safe_call(go), "runs",
+                 adj(flat_whole, pre, post))]
+    if kind == "tagifiable-sib":
+        _, pre, route = op
+
+        def go():
+            obj = trees.CustomReprObj([Tag("section", "expansion")], True, "<i>self</i>")
+            p = Tag("section", mk_sib(pre), x, obj)
+            if route == "ghs":
+                return p.get_html_string(1, SENT)
+            return p.render()["html"] if route == "render" else str(p)
+        ex = adj(flat_whole, pre, None)
+        if route == "ghs" and ex:
+            ex = [ex[0] + "<i>self</i>"]      # rendered directly, the object is a self-rendering (inline) child
+        return [(f"next to an object that is tagifiable and self-rendering ({route})", safe_call(go), "runs", ex)]
+    if kind == "textdoc":
+        _, json_mode, pi, libp, incv = op
+        pat = PATTERNS[pi]
+
+        def go():
+            if json_mode:
+                old = htmltools.html_dependency_render_mode
+                try:
+                    htmltools.html_dependency_render_mode = "json"
+                    text = str(x)
+                finally:
+                    htmltools.html_dependency_render_mode = old
+            else:
+                text = x.get_html_string(1, "\n")
+            if pat in text:
+                return None
+            tmpl = "<html><head>" + pat + "</head><body>\n" + text + "\n</body></html>"
+            deps = [HTMLDependency("c05-t", "2.0", head="<meta name='t'>"),
+                    HTMLDependency("c05-u", "1.0", source={"href": "https://x.invalid/u"}, script={"src": "u.js"})]
+            return HTMLTextDocument(tmpl, deps=deps, deps_replace_pattern=pat).render(
+                lib_prefix=libp, include_version=incv)["html"]
+        r = safe_call(go)
+        if r == ("ok", None):
+            return []
+        return [(f"HTMLTextDocument over the rendering (json mode: {json_mode}; pattern {pat!r})", r, "runs", [])]
+    if kind == "jsx-sib":
+        _, pre, post, route = op
+
+        def go():
+            from htmltools import jsx_tag_create
+            comp = jsx_tag_create("C05Comp")
+            p = with_block(Tag("section"), [mk_sib(pre), x, comp(Tag("b", "in jsx"), n=1), mk_sib(post)])
+            return p.render()["html"] if route == "render" else str(p)
+        return [("next to a JSX component inside a tag filled in a with-block", safe_call(go), "runs",
+                 adj(flat_whole, pre, None))]
+    raise ValueError(op)
+
+
+def doc_op_flags(op, d, flags):
+    """the flags by tag name for the output of one operation: a document operation brings <html> /
+    <head> / <body> tags of its own (the library's skeleton: flag not promised; the wrappers of the
+    operation: flag known); a name that then carries two different flags tells nothing (lenient)"""
+    if op[0] != "doc":
+        return flags
+    _, shape, pre, post, kw, entry, libp, incv, bws, hws = op
+    if shape == "alone":
+        if d[1] == "html":
+            created = {} if any(k[0] == "G" and k[1] == "head" for k in d[4]) else {"head": None}
+        elif d[1] == "body":
+            created = {"html": None, "head": None}
+        else:
+            created = {"html": None, "head": None, "body": None}
+    elif shape == "in-body":
+        created = {"html": None, "head": None, "body": bws}
+    elif shape == "in-html":
+        created = {"html": hws, "head": None, "body": bws}
+    elif shape == "head_content":
+        created = {"html": None, "head": hws, "body": bws}
+    else:
+        created = {"html": None, "head": None, "body": None}
+    user = edge_flags(d)
+    out = dict(flags)
+    for n, f in created.items():
+        out[n] = f if (f is not None and user.get(n, f) == f) else None
+    return out
+
+
+def reroot(rng, d):
+    """sometimes give a random tree a document-shaped top: root named html / body / head (either
+    flag), and under an <html> root some children named head / body"""
+    if rng.random() >= 0.3:
+        return d
+    name = rng.choice(["html", "body", "body", "head"])
+    ws = rng.random() < 0.5
+    kids = list(d[4])
+    if name == "html":
+        for i, k in enumerate(kids):
+            if k[0] == "G" and rng.random() < 0.7:
+                kids[i] = ("G", rng.choice(["head", "body", "body"]), k[2] if rng.random() < 0.5 else not k[2], k[3], k[4])
+        if rng.random() < 0.4:
+            kids.insert(rng.randrange(0, len(kids) + 1),
+                        ("G", "body", rng.random() < 0.5, [], [("G", "span", False, [], [("T", "p")]), ("T", "q")]))
+    return ("G", name, ws, d[3], kids)
+
+
+def placements(ctx: Ctx) -> None:
+    rng = ctx.rng
+    tmp = tempfile.mkdtemp(prefix="c05-")
+    try:
+        # ---- random trees: runs oracle ------------------------------------------------------
+        name = "placements of a tree (every entry point)"
+        cases = []
+        for _ in range(ctx.budget(500, 10000)):
+            d = trees.rand_tree(rng, rng.choice([1, 2, 2, 3, 3, 4]), leaves="TTTHHRRMD", names="bbiiivsck", flip_ws=0.25)
+            d = reroot(rng, d)
+            indent, eol = rand_layout(rng)
+            cases.append((d, indent, eol, rng.randrange(0, 1000), rand_ops(rng, False, d[1])))
+        for _ in range(ctx.budget(6, 60)):
+            d, indent, eol = big_tree(rng)
+            cases.append((d, indent, eol, rng.randrange(0, 1000), rand_ops(rng, False, d[1])))
+        if ctx.replay is None:
+            # a document file of more than 256 KiB (its size no multiple of 64 KiB: the text ends in a counter)
+            # (four strings of 70000 characters: one much longer string is beyond the extracted model's stack)
+            leaf = rng.choice("THR")
+            d = ("G", "body", True, [], [("G", "p", True, [], [("T", "blk")]), ("G", "span", False, [], [("T", "pre")])] +
+                 [x for i in range(4) for x in ((leaf, long_text(rng, 70000)), ("G", "b", False, [], [("T", "s%d" % i)]),
+                                                ("R", "<u>r%d</u>" % i))])
+            cases.append((d, 0, "\n", 0, (("doc", "alone", "text", "text", "lang", "save", "lib", True, False, False),
+                                          ("doc", "sibs", "b", "repr", "none", "taglist-save", None, False, False, False),
+                                          ("doc", "in-body", "html", "text", "none", "tag-save", "a/b", True, False, True),
+                                          ("doc", "alone", "text", "text", "none", "tag-save", "", True, False, False))))
+        for n in [8, 17, 33, 64, 130, 300] if ctx.replay is None else []:
+            # a long history of operations on one object
+            d = reroot(rng, trees.rand_tree(rng, 2, leaves="TTHRM", names="bbiiiv", flip_ws=0.25))
+            cases.append((d, 1, "\n", rng.randrange(0, 1000), rand_ops(rng, False, d[1], history=n)))
+        cases = ctx.select(name, cases)
+        flats = spec_flats([tree_runs(c[0]) + doc_runs(c[0]) for c in cases])
+        bad_build, changed = [], []
+        for c, fl in zip(cases, flats):
+            d, indent, eol, mode, ops = c
+            n_tree = len(tree_runs(d))
+            want = {"runs": fl[:n_tree], "doc": fl[n_tree:]}
+            flat_whole = fl[n_tree - 1] if inline_only(d) else None
+            ctx.count(c, not inline_only(d) or len(d[4]) >= 2, "placement")
+            xb = safe_call(lambda: build_api(d, mode))
+            if xb[0] != "ok":
+                bad_build.append({"case": c, "impl_output": xb})
+                continue
+            x = xb[1]
+            # (the rendering alone, and between two inline siblings: there the flag of the root shows even
+            # when the root has a single text child)
+            render_x = lambda: (x.get_html_string(indent, eol),
+                                TagList("a", x, "b").get_html_string(1, SENT, add_ws=False))
+            base = safe_call(lambda: x.get_html_string(indent, eol))
+            base2 = safe_call(render_x)
+            ref = safe_call(lambda: build(api_desc(d, mode), share=True).get_html_string(indent, eol))
+            if base != ref:
+                bad_build.append({"case": c, "impl_output": base, "built_directly": ref})
+            if base[0] != "ok":
+                continue
+            msg = missing_run(want["runs"], base[1])
+            if msg:
+                ctx.violation(f"{name}: tree built through the public API: {msg}", c, {"impl_output": base})
+                continue
+            for op in ops:
+                for label, r, wk, extras in run_op(op, x, flat_whole, tmp):
+                    if r[0] != "ok":
+                        if r[1] == "exc:did-not-terminate":
+                            ctx.violation(f"{name}: {label} does not return", c, {"op": op})
+                        continue
+                    if not isinstance(r[1], str):
+                        continue
+                    msg = missing_run(list(want[wk]) + list(extras), r[1], f" of: {label}")
+                    if msg:
+                        ctx.violation(f"{name}: {msg}", c, {"op": op, "impl_output": r[1][:4000]})
+                # the subject is only ever read: it must still render as before
+                after = safe_call(render_x)
+                if after != base2:
+                    msg = None
+                    if after[0] == "ok":
+                        msg = missing_run(want["runs"], after[1][0]) or \
+                            missing_run(adj(flat_whole, None, None) and ["a" + flat_whole + "b"], after[1][1],
+                                        " of a TagList holding it between two strings")
+                    if msg:
+                        ctx.violation(f"{name}: after {op[0]} ({op[1:3]!r}) the same object renders differently: {msg}", c,
+                                      {"op": op, "before": [t[:4000] for t in base2[1]], "after": [t[:4000] for t in after[1]]})
+                    changed.append({"case": c, "op": op, "before": repr(base2)[:4000], "after": repr(after)[:4000]})
+                    break
+        ctx.obligation(f"construction routes of the public API give the tree the model is given ({len(cases)} cases)",
+                       not bad_build)
+        ctx.obligation("operations that only read a tree leave its rendering as it was", not changed)
+        if bad_build:
+            ctx.extra["disagree_build_api"] = bad_build[:3]
+        if changed:
+            ctx.extra["rendering_changed_by_reading"] = changed[:3]
+
+        # ---- edge trees (names tell the flags): whitespace-at-block-edges oracle ----------------
+        name = "placements of an edge tree (every entry point)"
+        cases = []
+        for _ in range(ctx.budget(500, 10000)):
+            counter = [0]
+            d = edge_doc_tree(rng, counter) if rng.random() < 0.4 else edge_tree(rng, rng.choice([1, 2, 3]), counter)
+            cases.append((d, rng.randrange(0, 1000), rand_ops(rng, True, d[1])))
+        cases = ctx.select(name, cases)
+        for c in cases:
+            d, mode, ops = c
+            flags = dict(WRAP_FLAGS)
+            flags.update(edge_flags(d))
+            for n in list(flags):
+                if re.fullmatch(r"[bi]\d+", n) is None and n not in ("html", "body", "head", "br", "hr") \
+                        and n not in WRAP_FLAGS:
+                    flags[n] = None
+            ctx.count(c, True, "edge placement")
+            xb = safe_call(lambda: build_api(d, mode))
+            if xb[0] != "ok":
+                continue
+            x = xb[1]
+            render_x = lambda: x.get_html_string(0, SENT) + SENT + Tag("section", "a", x, "b").get_html_string(0, SENT)
+            base = safe_call(render_x)
+            if base[0] != "ok":
+                continue
+            msg = edges_ok_general(base[1], flags)
+            if msg:
+                ctx.violation(f"{name}: tree built through the public API: {msg}", c, {"impl_output": base[1]})
+                continue
+            for op in ops:
+                opflags = doc_op_flags(op, d, flags)
+                for label, r, wk, extras in run_op(op, x, None, tmp):
+                    if r[0] != "ok" or not isinstance(r[1], str):
+                        continue
+                    msg = edges_ok_general(r[1], opflags)
+                    if msg:
+                        ctx.violation(f"{name}: {msg}, in the output of: {label}", c, {"op": op, "impl_output": r[1][:4000]})
+                after = safe_call(render_x)
+                if after != base:
+                    msg = edges_ok_general(after[1], flags) if after[0] == "ok" else None
+                    if msg:
+                        ctx.violation(f"{name}: after {op[0]} ({op[1:3]!r}) the same object renders differently: {msg}", c,
+                                      {"op": op, "before": base[1][:4000], "after": after[1][:4000]})
+                    break
+    finally:
+        shutil.rmtree(tmp, ignore_errors=True)
+
+
 def run(ctx: Ctx) -> None:
     rng = ctx.rng
     ctx.rule = ("unrestricted random trees over {block, inline, void, script/style tags, text, HTML, repr-object, "
-                "metadata}, block-inside-inline nestings included, depth <= 5, indent 0..4, 5 eol strings; oracle "
+                "metadata}, block-inside-inline nestings included, depth <= 5 plus sparse wide (up to 300 children / "
+                "attributes), deep (chains up to 70) and long-string (up to 70000 characters) trees, indent 0..4 and "
+                "sparsely up to 300, usual and odd eol strings; oracle "
                 "per maximal run of adjacent inline-only siblings at every level (flat form from the Coq spec must "
                 "be a substring of the implementation's output) and a token-level whitespace-at-block-edges check "
-                "with a sentinel eol. Non-trivial = tree has an inline run of >= 2 items next to a block sibling; "
-                "distinct = canonical (tree, indent, eol).")
+                "with a sentinel eol; both oracles also over placements: the tree built through each public "
+                "construction route, then put through documents (HTMLDocument render / save_html / copy, "
+                "Tag.save_html, HTMLTextDocument, head_content), parents, TagLists (+, +=, insert ...), with-blocks, "
+                "copies, json render mode, and rendered again afterwards. Non-trivial = tree has an inline run of "
+                ">= 2 items next to a block sibling; distinct = canonical (tree, indent, eol[, operations]).")
     ctx.assumptions = ["the extracted OCaml model/spec behave as their Gallina sources"]
     ctx.proof()
 
     cases = []
     for _ in range(ctx.budget(3000, 50000)):
         d = trees.rand_tree(rng, rng.choice([1, 2, 3, 3, 4, 5]), leaves="TTHRM", names="bbiiivsck", flip_ws=0.2)
-        cases.append((d, rng.randrange(0, 5), rng.choice(EOLS)))
+        cases.append((d,) + rand_layout(rng))
+    if ctx.replay is None:
+        cases.extend(big_cases(rng, ctx.quick))
 
     cases = ctx.select("Tag.get_html_string (unrestricted trees)", cases)
     cases = type(cases)(tuple(c)[:3] for c in cases)
     # flat forms of every inline run, from the extracted specification
-    reqs, owner = [], []
+    runlists = [tree_runs(c[0]) for c in cases]
+    flats = spec_flats(runlists)
     for ci, (d, i, eol) in enumerate(cases):
-        rs = []
-        runs_of(d, rs)
-        if inline_only(d):
-            rs.append((True, [d]))
-        for esc, items in rs:
-            for it in items:
-                reqs.append([5, to_sx(it), 1 if esc else 0])
-                owner.append((ci, id(items)))
-        cases[ci] = (d, i, eol, rs)
-    flats = run_model(reqs)
-    pos = 0
-    want_runs: dict[int, list[str]] = {}
-    for ci, (d, i, eol, rs) in enumerate(cases):
-        acc = []
-        for esc, items in rs:
-            s = ""
-            for it in items:
-                m = flats[pos]
-                pos += 1
-                assert m[0] == 1
-                s += unS(m[1])
-            acc.append(s)
-        want_runs[ci] = acc
+        cases[ci] = (d, i, eol, runlists[ci])
+    want_runs: dict[int, list[str]] = dict(enumerate(flats))
     index_of = {id(c): ci for ci, c in enumerate(cases)}
 
     def default_runs(c):
@@ -172,18 +1077,18 @@ def run(ctx: Ctx) -> None:
     def oracle(c, out):
         if out[0] != "ok":
             return None
-        for s in want_runs[index_of[id(c)]]:
-            if s not in out[1]:
-                return f"inline run {s!r} does not appear contiguously in the output"
+        msg = missing_run(default_runs(c), out[1])
+        if msg:
+            return msg
         # the same holds for every way of obtaining the markup (str, repr, _repr_html_, render, tagify)
         x = build(c[0], share=True)
         for name, f in trees.render_routes(x):
             r = safe_call(f)
             if r[0] != "ok":
                 return f"{name} raised on a tree that get_html_string renders"
-            for s in default_runs(c):
-                if s not in r[1]:
-                    return f"inline run {s!r} does not appear contiguously in the output of {name}"
+            msg = missing_run(default_runs(c), r[1], f" of {name}")
+            if msg:
+                return msg
         return None
 
     differential(
@@ -197,12 +1102,32 @@ def run(ctx: Ctx) -> None:
     for _ in range(ctx.budget(1000, 15000)):
         items = [trees.rand_child(rng, rng.choice([0, 1, 2]), leaves="TTHRM", names="bbiiivsck", flip_ws=0.2)
                  for _ in range(rng.choice([1, 2, 3, 4, 5]))]
-        lcases.append((items, rng.randrange(0, 4), rng.choice(EOLS), rng.random() < 0.5))
+        lcases.append((items,) + rand_layout(rng) + (rng.random() < 0.5,))
+    for li, n in enumerate((SIZES + SIZES) * (1 if ctx.quick else 3) if ctx.replay is None else []):
+        # long lists: a whitespace-enabled item early on, the long run and its end beyond it
+        items = [small_inline(rng, i) for i in range(n)]
+        items[rng.randrange(0, min(n, 6))] = ("G", "div", True, [], [("T", "blk")])
+        items[-1] = ("G", "span", False, [], [("G", "b", False, [], [("T", "last")]), ("R", "<u>end</u>")])
+        lcases.append((items, rng.randrange(0, 3), rng.choice(EOLS), li % 2 == 0))   # (each size with either flag)
+    lname = "TagList.get_html_string (unrestricted items)"
+    lcases = ctx.select(lname, lcases)
+    lcases = type(lcases)(tuple(c)[:4] for c in lcases)
+    lflats = spec_flats([_list_runs(c[0]) for c in lcases])
+    lwant = {id(c): f for c, f in zip(lcases, lflats)}
+
+    def loracle(c, out):
+        if out[0] == "ok":
+            # adjacent inline items of a list have nothing between them, whatever add_ws says
+            msg = missing_run(lwant[id(c)], out[1])
+            if msg:
+                return msg
+        return trees.routes_disagree(build_list(c[0])) if c[3] else None
+
     differential(
-        ctx, "TagList.get_html_string (unrestricted items)", lcases,
+        ctx, lname, lcases,
         to_sx=lambda c: [3, [to_sx(d) for d in c[0]], c[1], S(c[2]), 1 if c[3] else 0, 1],
         impl=lambda c: safe_call(lambda: build_list(c[0]).get_html_string(c[1], c[2], add_ws=c[3])),
-        oracle=lambda c, out: trees.routes_disagree(build_list(c[0])) if c[3] else None,
+        oracle=loracle,
         decode=lambda m: res_decode(m, unS), nontrivial=lambda c: len(c[0]) >= 2, kind=lambda c: "list")
 
     # whitespace only at the edges of whitespace-enabled tags (implementation only)
@@ -215,6 +1140,16 @@ def run(ctx: Ctx) -> None:
             if msg:
                 ctx.violation("layout whitespace away from any whitespace-enabled tag", d,
                               {"impl_output": out[1], "why": msg})
+
+    # both oracles over every construction route, entry point and placement
+    placements(ctx)
+
+
+def _list_runs(items):
+    """runs among the items of a top-level list and inside them"""
+    rs = []
+    runs_of(("G", "div", True, [], list(items)), rs)
+    return rs
 
 
 def replay(ctx: Ctx, path: str) -> None:
